@@ -52,13 +52,17 @@ enum Op {
     /// a thread registers its own tag name in the global format context and then formats an
     /// envelope carrying that tag: its own registration must be visible to it (program order)
     CustomTagThenFormat,
+    /// after this thread has itself used the format context, it consults the known-value registry and,
+    /// while still holding that guard, formats an envelope carrying a known value the context has no name
+    /// for (a pattern the shipped code supports once the context is initialised)
+    HoldRegistryThenFormat,
 }
-const OPS: [Op; 13] = [Op::Format, Op::FormatFlat, Op::TreeFormat, Op::DiagAnnotated, Op::Hex, Op::RegisterTags, Op::ContextRead, Op::KnownValuesLookup, Op::FunctionsLookup, Op::DcborDiag, Op::SharedCodec, Op::RegisterThenUr, Op::CustomTagThenFormat];
+const OPS: [Op; 14] = [Op::Format, Op::FormatFlat, Op::TreeFormat, Op::DiagAnnotated, Op::Hex, Op::RegisterTags, Op::ContextRead, Op::KnownValuesLookup, Op::FunctionsLookup, Op::DcborDiag, Op::SharedCodec, Op::RegisterThenUr, Op::CustomTagThenFormat, Op::HoldRegistryThenFormat];
 
 impl Op {
     /// uses the global format context (initialises it on first use)
     fn initialises(&self) -> bool {
-        matches!(self, Op::Format | Op::FormatFlat | Op::TreeFormat | Op::DiagAnnotated | Op::Hex | Op::RegisterTags | Op::ContextRead | Op::RegisterThenUr | Op::CustomTagThenFormat)
+        matches!(self, Op::Format | Op::FormatFlat | Op::TreeFormat | Op::DiagAnnotated | Op::Hex | Op::RegisterTags | Op::ContextRead | Op::RegisterThenUr | Op::CustomTagThenFormat | Op::HoldRegistryThenFormat)
     }
     fn registers(&self) -> bool {
         matches!(self, Op::RegisterTags | Op::RegisterThenUr)
@@ -112,6 +116,15 @@ fn run_op(op: Op, e: &Envelope, shared: &Arc<Envelope>) -> String {
             let e2 = Envelope::new(CBOR::to_tagged_value(tv, "payload"));
             format!("{}|{}", e2.format(), e2.diagnostic_annotated())
         }
+        Op::HoldRegistryThenFormat => {
+            let e2 = Envelope::new("holder").add_assertion(KnownValue::new(12345), KnownValue::new(54321));
+            let _ = e2.format(); // this thread has now initialised (or waited for) the format context
+            let guard = known_values::KNOWN_VALUES.get();
+            let n = guard.as_ref().map(|s| s.name(known_values::NOTE)).unwrap_or_default();
+            let text = e2.format();
+            drop(guard);
+            format!("{}|{}", n, text)
+        }
         Op::RegisterThenUr => {
             // program-order guarantee: after this thread's own register_tags(), ur_string() works
             bc_envelope::register_tags();
@@ -156,6 +169,26 @@ fn envs() -> Vec<Envelope> {
     vec![probe_envelope(), plain_envelope()]
 }
 
+/// Run every operation alone (single-threaded, from uninitialised registries). A failure here is already a
+/// violation: an operation that cannot even complete on its own.
+fn calibrate_checked() -> Result<Expected, String> {
+    take_first_panic();
+    let r = std::panic::catch_unwind(calibrate);
+    let first = take_first_panic();
+    match r {
+        Ok(ex) => Ok(ex),
+        Err(e) => Err(first.unwrap_or_else(|| {
+            if let Some(s) = e.downcast_ref::<&str>() {
+                s.to_string()
+            } else if let Some(s) = e.downcast_ref::<String>() {
+                s.clone()
+            } else {
+                "panic".to_string()
+            }
+        })),
+    }
+}
+
 fn calibrate() -> Expected {
     let out: Arc<StdMutex<Expected>> = Arc::new(StdMutex::new(Expected::default()));
     let o2 = out.clone();
@@ -186,6 +219,7 @@ fn calibrate() -> Expected {
         }
         ex.constants.insert(Op::ContextRead, run_op(Op::ContextRead, &es[0], &shared));
         ex.constants.insert(Op::CustomTagThenFormat, run_op(Op::CustomTagThenFormat, &es[0], &shared));
+        ex.constants.insert(Op::HoldRegistryThenFormat, run_op(Op::HoldRegistryThenFormat, &es[0], &shared));
         // S2
         ex.constants.insert(Op::RegisterThenUr, run_op(Op::RegisterThenUr, &es[0], &shared));
         for (i, e) in es.iter().enumerate() {
@@ -535,7 +569,26 @@ fn run_check(tier: &str) -> i32 {
         println!("VIOLATION property=C20 replay={}/replays/C20-watchdog-{}.json", verif_dir(), seed);
         std::process::exit(1);
     });
-    let ex = calibrate();
+    let ex = match calibrate_checked() {
+        Ok(ex) => ex,
+        Err(msg) => {
+            // an operation fails even when run alone on one thread
+            let dir = std::path::PathBuf::from(format!("{}/replays", verif_dir()));
+            std::fs::create_dir_all(&dir).ok();
+            let path = format!("{}/C20-{}-calibration.json", dir.display(), seed);
+            let oracle = oracle_of(&msg);
+            let j = json!({"version": 1, "engine": "schedsim", "property": "C20", "oracle": oracle, "scheduler": "calibration", "seed": seed, "tier": tier,
+                "max_threads": 1, "max_ops": 1, "schedule_file": "", "violation": msg.lines().take(12).collect::<Vec<_>>().join("\n"), "minimised": true});
+            std::fs::write(&path, serde_json::to_string_pretty(&j).unwrap()).ok();
+            println!("violation: oracle={} scheduler=single-thread (every operation run alone): {}", oracle, msg.lines().next().unwrap_or(""));
+            println!("VIOLATION property=C20 replay={}", path);
+            let ev = json!({"property_id": "C20", "tier": tier, "seed": seed, "level": "exploration", "wall_s": t0.elapsed().as_secs_f64(), "violations": 1,
+                "coverage": {"evaluations": 1, "distinct_nontrivial": 2, "rule": "the single-threaded calibration execution (every operation run alone from uninitialised registries) already failed; no schedules were explored", "samples": [msg.lines().next().unwrap_or("")]}});
+            std::fs::create_dir_all(format!("{}/evidence", verif_dir())).ok();
+            std::fs::write(format!("{}/evidence/C20.json", verif_dir()), serde_json::to_string_pretty(&ev).unwrap()).ok();
+            return 1;
+        }
+    };
     if ex.s1 == ex.s2 || ex.dcbor_s0 == ex.dcbor_s1 {
         eprintln!("HARNESS-ERROR: calibration cannot tell the model states apart (S1==S2: {}, S0==S1 at dcbor level: {})", ex.s1 == ex.s2, ex.dcbor_s0 == ex.dcbor_s1);
         return 2;
@@ -664,7 +717,32 @@ fn replay(path: &str) -> i32 {
     let wl = Workload { max_threads: v["max_threads"].as_u64().unwrap_or(8) as usize, max_ops: v["max_ops"].as_u64().unwrap_or(4) as usize };
     let sched = v["schedule_file"].as_str().unwrap_or("").to_string();
     let oracle = v["oracle"].as_str().unwrap_or("").to_string();
-    let ex = calibrate();
+    if v["scheduler"].as_str() == Some("calibration") {
+        return match calibrate_checked() {
+            Ok(_) => {
+                println!("NOT-REPRODUCED property=C20 oracle={}", oracle);
+                0
+            }
+            Err(msg) => {
+                println!("{}", msg.lines().take(12).collect::<Vec<_>>().join("\n"));
+                if oracle_of(&msg) == oracle {
+                    println!("REPRODUCED property=C20 oracle={} replay={}", oracle, path);
+                    1
+                } else {
+                    println!("NOT-REPRODUCED property=C20 oracle={} (a different failure: {})", oracle, oracle_of(&msg));
+                    0
+                }
+            }
+        };
+    }
+    let ex = match calibrate_checked() {
+        Ok(ex) => ex,
+        Err(msg) => {
+            println!("{}", msg);
+            println!("NOT-REPRODUCED property=C20 oracle={} (calibration failed)", oracle);
+            return 0;
+        }
+    };
     EXPECTED.set(ex).ok();
     take_first_panic();
     let r = std::panic::catch_unwind(move || {
